@@ -18,6 +18,9 @@ def run(ctx, out):
     recs = [G.gen_record(rng, G.CLASSES[k % len(G.CLASSES)], nmax=(60 if k % 10 == 0 else 30)) for k in range(n_ms)]
     K.check_ms(recs, out, KEEP, PROP, 'ms')
     recs_cl = [G.gen_record(rng, G.CLASSES[k % len(G.CLASSES)]) for k in range(n_cl)]
+    # every 4th record with a 2-3x finer water level series, outages and mostly an island of readings between two
+    # outages (stored data-interval numbers with a hole); own stream, the records are otherwise unchanged
+    recs_cl = G.fine_share(recs_cl, C.rng_for(seed, PROP, 'fine'))
     K.check_cl(recs_cl, out, KEEP, PROP, 'cl')
     if tier == 'thorough':
         field_samples(out)
